@@ -14,7 +14,7 @@
    between the two programs and may flow through arithmetic); for those the per-compile checks of
    C05 apply. *)
 From Coq Require Import List ZArith Bool Arith Lia.
-From PV Require Import IC10.Values IC10.Machine Valid.Resolve Valid.ResolveProofs.
+From PV Require Import IC10.Values IC10.Machine IC10.MachineProofs Valid.Resolve Valid.ResolveProofs.
 Import ListNotations.
 
 Section S.
@@ -286,6 +286,43 @@ Proof.
     + exists 0. split; [lia|reflexivity].
 Qed.
 
+(* the converse: every run of the label-free program is matched by a run of the labelled one (which
+   needs the extra steps over its label lines) *)
+Lemma skip_labels : frag = true -> forall n s, length q - pc s <= n -> st s = Running ->
+  exists k, let s1 := run A O q k s in
+    T s1 = T s /\ st s1 = Running /\
+    (forall id, nth_error q (pc s1) <> Some (LLabel id)).
+Proof.
+  intros F. induction n as [|n IH]; intros s Hn Hs.
+  - exists 0. cbn. repeat split; [exact Hs|]. intros id H.
+    assert (pc s < length q) by (apply nth_error_Some; congruence). lia.
+  - destruct (nth_error q (pc s)) as [[id|op args]|] eqn:E.
+    + (* a label line: one step, then go on *)
+      assert (step A O q s = next s) as Hst by (unfold step; rewrite Hs, E; reflexivity).
+      assert (pc s < length q) by (apply nth_error_Some; congruence).
+      destruct (IH (next s)) as (k & Hk); [cbn; lia|exact Hs|].
+      exists (S k). cbn [run]. rewrite Hs, Hst. cbn zeta in Hk |- *.
+      destruct Hk as (H1 & H2 & H3). repeat split; [|exact H2|exact H3].
+      rewrite H1. exact (T_label s id E).
+    + exists 0. cbn. repeat split; [exact Hs|]. intros id H. congruence.
+    + exists 0. cbn. repeat split; [exact Hs|]. intros id H. congruence.
+Qed.
+
+Theorem run_sim_converse : frag = true -> forall fuel' s, exists fuel,
+  T (run A O q fuel s) = run A O p' fuel' (T s).
+Proof.
+  intros F. induction fuel' as [|k IH]; intros s.
+  - exists 0. reflexivity.
+  - cbn [run]. change (st (T s)) with (st s). destruct (st s) eqn:Es.
+    + destruct (skip_labels F (length q - pc s) s (Nat.le_refl _) Es) as (j & H1 & H2 & H3). cbn zeta in *.
+      set (s1 := run A O q j s) in *.
+      destruct (step_sim s1 F) as [(_ & _ & id & Hid)|Hs]; [exfalso; exact (H3 id Hid)|].
+      destruct (IH (step A O q s1)) as (f & Hf).
+      exists (j + S f). rewrite run_add. fold s1. cbn [run]. rewrite H2. rewrite Hf, Hs, H1. reflexivity.
+    + exists 0. reflexivity.
+    + exists 0. reflexivity.
+Qed.
+
 (* what the chip and its surroundings can observe is the same *)
 Theorem resolve_preserves_behaviour : frag = true -> forall fuel, exists fuel', (fuel' <= fuel) /\
   let a := run A O q fuel (init_state A) in
@@ -297,6 +334,18 @@ Proof.
   assert (T (init_state A) = init_state A) as Hi.
   { unfold T, init_state, set_pc. cbn. assert (ib 0 = 0) as -> by (destruct q; reflexivity). reflexivity. } rewrite Hi in H. rewrite <- H.
   repeat split; reflexivity.
+Qed.
+
+Theorem resolve_behaviour_converse : frag = true -> forall fuel', exists fuel,
+  let a := run A O q fuel (init_state A) in
+  let b := run A O p' fuel' (init_state A) in
+  hist b = hist a /\ st b = st a /\ regs b = regs a /\ mem b = mem a /\ pc b = ib (pc a).
+Proof.
+  intros F fuel'. destruct (run_sim_converse F fuel' (init_state A)) as (f & H).
+  exists f. cbn zeta.
+  assert (T (init_state A) = init_state A) as Hi.
+  { unfold T, init_state, set_pc. cbn. assert (ib 0 = 0) as -> by (destruct q; reflexivity). reflexivity. }
+  rewrite Hi in H. rewrite <- H. repeat split; reflexivity.
 Qed.
 
 End S.
@@ -325,6 +374,16 @@ Theorem resolve_preserves_behaviour_float (O : @oracle float) (q : list (@line f
   hist b = hist a /\ st b = st a /\ regs b = regs a /\ mem b = mem a /\ pc b = instrs_before q (pc a).
 Proof.
   intros Hlen F fuel. apply resolve_preserves_behaviour; [|exact F].
+  intros n Hn. apply float_line_numbers. lia.
+Qed.
+
+Theorem resolve_behaviour_converse_float (O : @oracle float) (q : list (@line float)) :
+  length q <= 4096 -> frag q = true -> forall fuel', exists fuel,
+  let a := run FloatAlg O q fuel (init_state FloatAlg) in
+  let b := run FloatAlg O (resolve FloatAlg q) fuel' (init_state FloatAlg) in
+  hist b = hist a /\ st b = st a /\ regs b = regs a /\ mem b = mem a /\ pc b = instrs_before q (pc a).
+Proof.
+  intros Hlen F fuel'. apply resolve_behaviour_converse; [|exact F].
   intros n Hn. apply float_line_numbers. lia.
 Qed.
 
